@@ -120,6 +120,10 @@ def install(I):
 
     def _minmax(which):
         def f(ctx, *a, key=None, default=None):
+            if len(a) == 1 and isinstance(a[0], Arr) and not a[0].concrete_len() and key is None:
+                from .npmodel import sym_extreme
+
+                return sym_extreme(ctx, a[0], which)
             if len(a) == 1:
                 items = I.iterate(a[0])
             else:
@@ -264,6 +268,8 @@ def install(I):
 
     @native("any")
     def _any(ctx, it):
+        if isinstance(it, GenVal) and isinstance(it.items, Arr):
+            it = it.items
         if isinstance(it, Arr) and not it.concrete_len():
             from .npmodel import sym_any
 
@@ -280,6 +286,8 @@ def install(I):
 
     @native("all")
     def _all(ctx, it):
+        if isinstance(it, GenVal) and isinstance(it.items, Arr):
+            it = it.items
         if isinstance(it, Arr) and not it.concrete_len():
             from .npmodel import sym_all
 
@@ -414,9 +422,37 @@ def install(I):
             raise Unsupported("pandas.read_csv: file contents are not modelled (no table supplied by the contract)")
         return hook(path)
 
-    I.native_modules["pandas"] = NativeModule("pandas", {"read_csv": Native("pandas.read_csv", read_csv)})
+    def data_frame(ctx, data=None, *a, **k):
+        from .pdmodel import FrameVal
+        return FrameVal(data)
+
+    I.native_modules["pandas"] = NativeModule("pandas", {"read_csv": Native("pandas.read_csv", read_csv),
+                                                        "DataFrame": Native("pandas.DataFrame", data_frame)})
     I.native_modules["warnings"] = NativeModule("warnings", {}, dropped=True)
-    I.native_modules["datetime"] = NativeModule("datetime", {})
+    class TimeVal:
+        """datetime / date values: only used to build file names; every field is the string-able 0"""
+
+    def time_attr(obj, name):
+        if isinstance(obj, TimeVal):
+            if name in ("today", "now", "date", "time"):
+                return Native("datetime." + name, lambda ctx, *a, **k: TimeVal())
+            return 0
+        return None
+
+    I._time_attr = time_attr
+    I.TimeVal = TimeVal
+    dt_cls = TimeVal()
+    I.native_modules["datetime"] = NativeModule("datetime", {"date": dt_cls, "datetime": dt_cls})
+
+    import re as _re
+
+    def re_sub(ctx, pattern, repl, string, *a, **k):
+        if all(isinstance(x, str) for x in (pattern, repl, string)):
+            return _re.sub(pattern, repl, string)
+        raise Unsupported("re.sub on symbolic strings")
+
+    I.native_modules["re"] = NativeModule("re", {"sub": Native("re.sub", re_sub)})
+    I.native_modules["git"] = NativeModule("git", {"Repo": Native("git.Repo", lambda ctx, *a, **k: Obj(ClassVal("Repo", [], {}, None), {"working_dir": I.PathVal("<repo_root>")}))})
     I.native_modules["itertools"] = NativeModule("itertools", {
         "product": Native("itertools.product", lambda ctx, *its: [tuple(t) for t in __import__("itertools").product(*[I.iterate(x) for x in its])]),
     })
@@ -1073,6 +1109,9 @@ def builtin_attr(I, obj, name):
         r = hook(obj, name)
         if r is not None:
             return r
+    r = I._time_attr(obj, name)
+    if r is not None:
+        return r
     raise PyExc(ExcVal("AttributeError", (f"'{type_name(obj)}' object has no attribute '{name}'",)))
 
 
